@@ -588,6 +588,121 @@ def gen_fcbo():
     return '\n'.join(out)
 
 
+class GuardTr:
+    """Translate the conditions of the `if cond: raise ValueError(...)` chain of `Context.__init__` into Lean Booleans over
+    `objects properties : List Name` and `bools : List (List Bool)`. Python sets of names are duplicate-free lists
+    (`uniq`), the set of row lengths is a list compared as a set (`pySetNe`)."""
+
+    def __init__(self, subst):
+        self.subst = subst      # python name -> lean term (lists)
+
+    def is_set(self, node):
+        return (isinstance(node, (ast.Set, ast.SetComp))
+                or (isinstance(node, ast.Call) and isinstance(node.func, ast.Name) and node.func.id == 'set'))
+
+    def lst(self, node):
+        """a list- or set-valued expression as a Lean list"""
+        if isinstance(node, ast.Name) and node.id in self.subst:
+            return self.subst[node.id]
+        if isinstance(node, ast.Call) and isinstance(node.func, ast.Name) and node.func.id == 'set' and len(node.args) == 1:
+            return '(uniq %s)' % self.lst(node.args[0])
+        if isinstance(node, ast.Set):
+            return '[%s]' % ', '.join(self.num(e) for e in node.elts)
+        if (isinstance(node, ast.SetComp) and len(node.generators) == 1 and not node.generators[0].ifs
+                and isinstance(node.generators[0].target, ast.Name)):
+            g = node.generators[0]
+            v = g.target.id
+            inner = GuardTr(dict(self.subst, **{v: v}))
+            return '(%s.map fun %s => %s)' % (self.lst(g.iter), v, inner.num(node.elt))
+        raise Decline('unsupported collection %s' % ast.unparse(node))
+
+    def num(self, node):
+        if isinstance(node, ast.Call) and isinstance(node.func, ast.Name) and node.func.id == 'len' and len(node.args) == 1:
+            return '%s.length' % self.lst(node.args[0])
+        if isinstance(node, ast.Constant) and isinstance(node.value, int) and not isinstance(node.value, bool):
+            return str(node.value)
+        raise Decline('unsupported number %s' % ast.unparse(node))
+
+    def cond(self, node):
+        if isinstance(node, ast.BoolOp) and isinstance(node.op, ast.Or):
+            return '(%s)' % ' || '.join(self.cond(v) for v in node.values)
+        if isinstance(node, ast.UnaryOp) and isinstance(node.op, ast.Not):
+            inner = node.operand
+            if isinstance(inner, ast.Name) and inner.id in self.subst:
+                return '%s.isEmpty' % self.subst[inner.id]          # `not items`: empty tuple
+            if (isinstance(inner, ast.Call) and isinstance(inner.func, ast.Attribute) and inner.func.attr == 'isdisjoint'
+                    and len(inner.args) == 1):
+                return '(%s.any %s.contains)' % (self.lst(inner.func.value), self.lst(inner.args[0]))
+            raise Decline('unsupported negation %s' % ast.unparse(node))
+        if isinstance(node, ast.Compare) and len(node.ops) == 1 and isinstance(node.ops[0], ast.NotEq):
+            a, b = node.left, node.comparators[0]
+            if self.is_set(a) and self.is_set(b):
+                return '(pySetNe %s %s)' % (self.lst(a), self.lst(b))
+            return '(%s != %s)' % (self.num(a), self.num(b))
+        raise Decline('unsupported condition %s' % ast.unparse(node))
+
+
+def gen_validate():
+    """`Context.__init__`: the chain of `if cond: raise ValueError` statements, in order, as one Boolean."""
+    tree = ast.parse(open(os.path.join(REPO, 'concepts', 'contexts.py')).read())
+    inits = [f for c in tree.body if isinstance(c, ast.ClassDef) for f in c.body
+             if isinstance(f, ast.FunctionDef) and f.name == '__init__'
+             and [a.arg for a in f.args.args] == ['self', 'objects', 'properties', 'bools']]
+    if len(inits) != 1:
+        raise Decline('no unique __init__(self, objects, properties, bools)')
+    body = _nodoc(inits[0].body)
+    if not body or ast.unparse(body[0]) != 'objects, properties = map(tuple, (objects, properties))':
+        raise Decline('the first statement of Context.__init__ changed')
+    conds = []
+
+    def raising_if(st, tr):
+        if not (isinstance(st, ast.If) and not st.orelse and st.body and isinstance(st.body[-1], ast.Raise)):
+            return False
+        exc = st.body[-1].exc
+        if not (isinstance(exc, ast.Call) and isinstance(exc.func, ast.Name) and exc.func.id == 'ValueError'):
+            raise Decline('a guard raises something else than ValueError: %s' % ast.unparse(exc)[:60])
+        for pre in st.body[:-1]:       # only message preparation is allowed before the raise
+            if not isinstance(pre, ast.Assign):
+                raise Decline('unexpected statement inside a guard')
+        conds.append(tr.cond(st.test))
+        return True
+
+    base = GuardTr({'objects': 'objects', 'properties': 'properties', 'bools': 'bools'})
+    rest_started = False
+    for st in body[1:]:
+        if isinstance(st, ast.For):
+            if rest_started:
+                raise Decline('a guard loop after the construction started')
+            # for items, name in [(objects, 'objects'), (properties, 'properties')]: unrolled
+            if not (isinstance(st.target, ast.Tuple) and len(st.target.elts) == 2 and isinstance(st.iter, ast.List)):
+                raise Decline('unsupported guard loop')
+            var = st.target.elts[0].id
+            for elt in st.iter.elts:
+                if not (isinstance(elt, ast.Tuple) and isinstance(elt.elts[0], ast.Name) and elt.elts[0].id in base.subst):
+                    raise Decline('unsupported guard loop item')
+                tr = GuardTr(dict(base.subst, **{var: base.subst[elt.elts[0].id]}))
+                for inner in st.body:
+                    if not raising_if(inner, tr):
+                        raise Decline('unsupported statement in the guard loop')
+        elif isinstance(st, ast.If):
+            if rest_started:
+                raise Decline('a guard after the construction started')
+            if not raising_if(st, base):
+                raise Decline('an if statement that is not a guard')
+        else:
+            rest_started = True
+            if any(isinstance(n, ast.Raise) for n in ast.walk(st)):
+                raise Decline('a raise outside the guard chain')
+    out = ['import FCA.Model.Misc',
+           '/- GENERATED by harness/extract.py from Context.__init__ in concepts/contexts.py — do not edit.',
+           '   The conditions of the `if …: raise ValueError` chain, in source order. -/',
+           'namespace FCA.Generated', '',
+           '/-- true iff some guard of `Context.__init__` raises `ValueError` for a well-typed triple -/',
+           'def ctorRejects (objects properties : List Name) (bools : List (List Bool)) : Bool :=',
+           '  ' + ' ||\n  '.join(conds), '', 'end FCA.Generated', '']
+    return '\n'.join(out)
+
+
 def write_if_changed(path, text):
     old = open(path).read() if os.path.exists(path) else None
     if old != text:
@@ -605,7 +720,7 @@ def regenerate(log=print):
         sys.path.insert(0, REPO)
     status = {}
     for name, fn in (('Predicates', gen_predicates), ('Junctors', gen_junctors), ('Formats', gen_formats), ('Loops', gen_loops),
-                     ('Lindig', gen_lindig), ('Fcbo', gen_fcbo)):
+                     ('Lindig', gen_lindig), ('Fcbo', gen_fcbo), ('Validate', gen_validate)):
         path = os.path.join(GEN, name + '.lean')
         try:
             text = fn()
